@@ -673,6 +673,11 @@ func ReadFunction(env *Zlisp, name string, args []Sexp) (sx Sexp, err error) {
 		}
 		break
 	}
+	if sx == nil {
+		// a text without any expression (empty, blank, only a comment)
+		// reads as nil; a Go nil is not a value the VM can hold
+		sx = SexpNull
+	}
 	return
 }
 
